@@ -380,7 +380,7 @@ def run_shard(ctx):
                 check_case(c, ctx.stats)
             except Violation as v:
                 ctx.stats.violations.append({"signature": v.signature, "detail": v.detail, "case": c})
-    hyp_search(ctx, cases(), lambda c: check_case(c, ctx.stats), ctx.scale(5, 50))
+    hyp_search(ctx, cases(), lambda c: check_case(c, ctx.stats), ctx.scale(12, 60))
 
 
 def replay(case):
